@@ -206,6 +206,8 @@ def _int_eval(node: ast.AST, env: Dict[str, Any], ctx):
             return a % b
         if isinstance(op, ast.Div):
             return a / b
+        if isinstance(op, ast.Pow) and isinstance(b, int) and 0 <= b <= 8:
+            return a ** b
         raise AnalysisError(f"int_eval: operator {norm(node)}")
     if isinstance(node, ast.BoolOp):
         if isinstance(node.op, ast.And):
